@@ -900,6 +900,10 @@ func exprName(d *ssa.DebugRef) string {
 	if id, ok := d.Expr.(interface{ End() token.Pos }); ok {
 		_ = id
 	}
+	if v, ok := d.Object().(*types.Var); ok && v.IsField() {
+		// the Sel identifier of a field selection: not a local variable (it would shadow a local of the same name)
+		return ""
+	}
 	switch x := d.Expr.(type) {
 	case interface{ String() string }:
 		return x.String()
